@@ -173,7 +173,8 @@ def family(opcodes, target, extras=True):
 
 
 def load_opcodes(exe):
-    return json.loads(subprocess.check_output([exe, 'opcodes'], text=True))
+    # orcdump is only ever run from the scratch directory it was built in
+    return json.loads(subprocess.check_output([exe, 'opcodes'], text=True, cwd=os.path.dirname(os.path.abspath(exe))))
 
 
 def compile_family(exe, target, flags='default', recipes=None, emitasm=False, cwd=None, jobs=None):
@@ -228,7 +229,7 @@ def reduced_flag_sets(target, default_flags):
 
 
 def default_flags(exe):
-    t = json.loads(subprocess.check_output([exe, 'targets'], text=True))
+    t = json.loads(subprocess.check_output([exe, 'targets'], text=True, cwd=os.path.dirname(os.path.abspath(exe))))
     return {x['name']: x['default_flags'] for x in t['targets']}
 
 
